@@ -154,8 +154,16 @@ fn frame_dispathcer(
     let inform_cc = components.quic_handshake.status();
     let event_broker = event_broker.clone();
     let rcvd_joural = space.journal.of_rcvd_packets();
+    let sent_journal = space.journal.of_sent_packets();
     move |frame: Frame, path: &Path| match frame {
         Frame::Ack(f) => {
+            // an ACK of a packet that was never sent is a PROTOCOL_VIOLATION: it is validated
+            // against the sent journal before the congestion controller and the received
+            // journal iterate over its ranges
+            if let Err(e) = sent_journal.rotate().update_largest(&f) {
+                event_broker.emit(Event::Failed(e));
+                return;
+            }
             path.cc().on_ack_rcvd(Epoch::Handshake, &f);
             rcvd_joural.on_rcvd_ack(&f);
             _ = ack_frames_entry.send(f);
